@@ -6,6 +6,7 @@ CONSTANTS
   NObj = 4
   NCell = 1
   MaxOps = 3
+  StopAtEmpty = FALSE
   ScanBug = FALSE
 INVARIANT ExactlyOnce
 INVARIANT FinalOK
